@@ -34,7 +34,7 @@ var c12Names = []struct{ name, body string }{
 	{"y.ptxt", "jj kk ll jj kk"},
 	{"e.txt", ""},
 	{"0.txt", "mm nn oo mm nn"}, // sorts before every directory component: visited first by the walk
-	{"dir.txt", "\x00DIR"},       // a DIRECTORY whose name ends in txt (body marker: created with Mkdir)
+	{"dir.txt", "\x00DIR"},      // a DIRECTORY whose name ends in txt (body marker: created with Mkdir)
 	// bytes that a loader must hand over untouched: CRLF line ends behind a hyphen, a lone CR, a BOM,
 	// a NUL, trailing blanks (AddContent on the same bytes is the reference)
 	{"raw.txt", "\ufeffpp qq-\r\nrr ss\rtt uu\x00vv ww  \r\n\r\nxx yy zz\n"},
@@ -45,6 +45,8 @@ var c12Names = []struct{ name, body string }{
 var c12Big = []struct{ name, body string }{
 	{"big64k.txt", c12BigBody(66000)},
 	{"big128k.txt", c12BigBody(135000)},
+	// beyond a megabyte (read limits); combined with one spelling and one directory only
+	{"big1m.txt", c12BigBody(1<<20 + 5000)},
 }
 
 func c12BigBody(n int) string {
@@ -111,7 +113,7 @@ func c12Trees(c *vrep.Ctx) {
 	}
 	leaves := []string{"corp", "nest/ed"}
 	queries := [][]byte{[]byte("zqa aa bb cc aa bb zqb"), []byte("zqa cc bb aa cc bb aa"), []byte("gg hh ii gg hh\njj kk ll jj kk"), []byte("zqa")}
-	c.R.Rule = fmt.Sprintf("all sets of <=%d files drawn from depth 1..5 x names {a.txt, b.txt, x.md, txt, y.ptxt, empty e.txt, 0.txt (sorts before the directories), a directory named dir.txt} plus 66 KB and 135 KB files at variant depth (%d options), built in a private temp dir, x %d spellings of the directory (absolute/relative, ./ prefix, trailing separator, doubled separator, through .., and '.', './', '../name' with the directory as cwd) x {single, multi-component} directory; LoadLicenses must not panic or fail; files shallower than category/name/variant or not ending in 'txt' are ignored; if every remaining file sits at depth 3 the corpus (keys and word sequences, white-box) and Match on a query menu equal a classifier built by AddContent per file; non-trivial = distinct (tree, spelling) cases with at least one loadable file", maxFiles, len(options), len(c12Spellings))
+	c.R.Rule = fmt.Sprintf("all sets of <=%d files drawn from depth 1..5 x names {a.txt, b.txt, x.md, txt, y.ptxt, empty e.txt, 0.txt (sorts before the directories), a directory named dir.txt} plus 66 KB, 135 KB and 1.05 MB files at variant depth (%d options), built in a private temp dir, x %d spellings of the directory (absolute/relative, ./ prefix, trailing separator, doubled separator, through .., and '.', './', '../name' with the directory as cwd) x {single, multi-component} directory; LoadLicenses must not panic or fail; files shallower than category/name/variant or not ending in 'txt' are ignored; if every remaining file sits at depth 3 the corpus (keys and word sequences, white-box) and Match on a query menu equal a classifier built by AddContent per file; non-trivial = distinct (tree, spelling) cases with at least one loadable file", maxFiles, len(options), len(c12Spellings))
 	c.Bound("max_files", maxFiles)
 	c.Bound("spellings", len(c12Spellings))
 	tmp, err := os.MkdirTemp("", "verif-c12-")
@@ -143,6 +145,10 @@ func c12Trees(c *vrep.Ctx) {
 		for _, f := range files {
 			// the large files are combined with two spellings only (absolute, '.'): they cost 100x
 			if strings.HasPrefix(f.name, "big") && sp.name != "absolute" && sp.name != "dot (cwd is the directory)" {
+				r.Note = map[string]interface{}{"skip": true}
+				return
+			}
+			if f.name == "big1m.txt" && (sp.name != "absolute" || leaf != leaves[0] || len(files) > 2) {
 				r.Note = map[string]interface{}{"skip": true}
 				return
 			}
@@ -190,7 +196,14 @@ func c12Trees(c *vrep.Ctx) {
 		} else if comparable {
 			a, b := corpusDump(want), corpusDump(got)
 			if strings.Join(a, "\n") != strings.Join(b, "\n") {
-				msg = fmt.Sprintf("corpus differs: AddContent gives %v, LoadLicenses gives %v", a, b)
+				short := func(v interface{}) string {
+					t := fmt.Sprint(v)
+					if len(t) > 400 {
+						t = fmt.Sprintf("%s ... (%d bytes) ... %s", t[:200], len(t), t[len(t)-150:])
+					}
+					return t
+				}
+				msg = fmt.Sprintf("corpus differs: AddContent gives %s, LoadLicenses gives %s", short(a), short(b))
 			} else {
 				for _, q := range queries {
 					if x, y := vFmt(want.Match(q)), vFmt(got.Match(q)); x != y {
